@@ -561,7 +561,7 @@ def check_C05(ctx):
 def check_C06(ctx):
     ctx.rule = ("TLC computes with exact big-natural arithmetic (BigNat/Hypergeom.tla) P[X>=k] = TailNum/TailDen and fold = kN/(nK) for every (N,K,n,k) with N<=12 "
                 "(<=20 thorough) and for selected profiles with N in {170,171,200,400} (169..173, 200, 400, 1000 thorough), self-checking Vandermonde and antitonicity; "
-                "every (N,n) group is realised as real ontologies in three layouts (whole ontology as background, proper sub-collection, inherited annotations) x three kinds "
+                "every (N,n) group is realised as real ontologies in four layouts (whole ontology as background, proper sub-collection, inherited annotations, a binary-loaded ontology with obsolete / replaced background terms) x three kinds "
                 "with decoy annotations of the other kinds, and gene/omim/orpha_enrichment are compared (one record per linked annotation, count, p within rel 1e-10, fold, range, monotone in k); "
                 "non-trivial = profile with k > 0")
     r = tlc(ctx, "mc/MC_Hyper.cfg" if ctx.quick else "mc/MC_HyperThorough.cfg", "mc/MC_Hyper.tla", workers=14, timeout=3000)
